@@ -1,20 +1,34 @@
 (** C10 - Restart on the same stores resumes without loss or regression ... after a crash at
     any point (mirror model).  Statements only; proofs in Proofs/MirrorResume*.v.
 
-    FULL STATEMENTS (kept visible):
+    REPAIRED IN THE GO CODE (found by the first version of this file, which refuted (1) with two
+    witnesses confirmed on the real code): a vote message for a later round of the voting height,
+    or a replayed commit proof, carrying an entry with an EMPTY signature list was persisted as it
+    was, and the next NewKernel panicked in toFullProofMap ("BUG: saw len(sparseSigs) == 0").
+    handleFuture*Proofs / addFuture* and handleReplayedHeader now skip entries without signatures
+    (and the replay handler validates before it mutates); the model follows ([signed_entries]).
+    The theorems [C10_restart_can_fail_refuted] / [C10_clean_restart_can_fail_refuted] are gone,
+    the former witnesses are regression examples ([C10_former_witnesses_now_restart]), and the
+    guard [op_nonempty] is dropped from every theorem below.
+
+    FULL STATEMENTS (kept visible) and what is proved:
       (1) for every state s reachable by operations, clean restarts and crashes, every operation
           o and every k: xstep s XRestart and xstep s (XCrash k o) are Ok.
-          REFUTED: [C10_restart_can_fail_refuted], [C10_clean_restart_can_fail_refuted].
-          PARTIAL: [C10_startup_never_fails_any_cut_partial] (every crash point of every operation;
-          guards: [op_nonempty] - exactly what the witnesses violate -, a key in the next validator
-          set of an accepted / replayed header; the HISTORY leading to s may crash anywhere except
-          between the committed-header write and the position write of a commit, [clean_cut]).
+          PARTIAL: [C10_startup_never_fails_any_cut_partial]: EVERY crash point of every operation
+          and the clean restart, for s in [reachable_g].  Remaining guards: [op_bounded] and
+          [step_adm] of MirrorTotal (header heights + 1 < 2^64; the next validator set of an
+          accepted / replayed header has non-zero power; a replayed round is a uint32) and "that
+          next set has at least one key" - a MODEL-ONLY guard (in Go non-zero power implies a key;
+          [C10_keys_guard_needed_in_model] shows the model needs it); the HISTORY leading to s may
+          crash anywhere except between the committed-header write and the position write of a
+          commit ([clean_cut]): at that point start-up is shown total, but not that INV holds
+          again afterwards.
       (2) nothing committed is lost, the stored position does not regress, the voting height is
           at most one above what the uninterrupted operation reaches:
           [C10_no_regression_partial], [C10_crash_height_bound_partial] (same guards).
       (3) cinv / auth_state / sinv / hinv (INV), tinv and the store invariant SI hold after every
           xstep: [C10_invariants_after_every_xstep_partial] (same guards);
-          for ARBITRARY stores satisfying SI: [C10_restart_total_on_store_invariant]. *)
+          for ARBITRARY stores satisfying SI: [C10_restart_total_on_store_invariant] (full). *)
 From Coq Require Import List NArith.
 From GV Require Import Base.Ints Gen.Kernel Model.Mirror Proofs.MirrorAuth Proofs.MirrorChain Proofs.MirrorCert
   Proofs.MirrorTotal Proofs.MirrorResumeWit Proofs.MirrorResumeInv Proofs.MirrorResumeStart
@@ -22,38 +36,29 @@ From GV Require Import Base.Ints Gen.Kernel Model.Mirror Proofs.MirrorAuth Proof
 Import ListNotations.
 Local Open Scope N_scope.
 
-(** (1) is false of the model: a state reachable by two admissible peer messages from which the
-    crash of a third after its second store write cannot be restarted (witness B; the message
-    [wB_msg] carries a signature-collection entry with an empty signature list). *)
-Theorem C10_restart_can_fail_refuted :
-  exists ih ivs s o k site,
-    1 <= ih /\ vs_ok ivs = true /\ 0 < sum_pows (vs_pows ivs) /\
-    reachable_x ih ivs s /\ op_bounded o /\ op_wf o /\
-    (exists s' r, step s o = Ok (s', r)) /\
-    xstep s (XCrash k o) = Panic site.
-Proof. exact restart_can_fail_refuted. Qed.
-Print Assumptions C10_restart_can_fail_refuted.
+(** the two former witnesses (B: a future-round prevote message with an entry without signatures,
+    then a nil precommit; A: a replayed header whose commit proof has such an entry) are still
+    handled as before, and the mirror now comes up after a clean restart and after a crash at
+    every point of the last operation *)
+Theorem C10_former_witnesses_now_restart :
+  (is_ok (run_x (init_state 1 ex_vs) [XOp (OpPrevote wB_msg); XOp (OpPrecommit wB_nil); XRestart]) = true /\
+   forallb (fun k => is_ok (run_x (init_state 1 ex_vs) [XOp (OpPrevote wB_msg); XCrash k (OpPrecommit wB_nil)]))
+           [0; 1; 2; 3]%nat = true) /\
+  (is_ok (run_x (init_state 1 ex_vs) [XOp wA_op; XRestart]) = true /\
+   forallb (fun k => is_ok (xstep (init_state 1 ex_vs) (XCrash k wA_op))) [0; 1; 2; 3; 4; 5]%nat = true).
+Proof. split; [exact wB_now_restarts|exact wA_now_restarts]. Qed.
+Print Assumptions C10_former_witnesses_now_restart.
 
-(** ... and no crash is needed: a clean restart fails as well. *)
-Theorem C10_clean_restart_can_fail_refuted :
+(** MODEL ONLY: the model's [valset] keeps keys and powers in two lists of independent length; a
+    committed next validator set with power but without a key makes the model's start-up fail
+    ("loadInitialVotingView: BUG: no validators available").  Not replayable on the Go code,
+    where a validator set is one list of (key, power) pairs. *)
+Theorem C10_keys_guard_needed_in_model :
   exists ih ivs s site,
     1 <= ih /\ vs_ok ivs = true /\ 0 < sum_pows (vs_pows ivs) /\
     reachable_x ih ivs s /\ xstep s XRestart = Panic site.
-Proof. exact clean_restart_can_fail_refuted. Qed.
-Print Assumptions C10_clean_restart_can_fail_refuted.
-
-(** the concrete runs (replayable on the real code): B = one future-round prevote message with an
-    empty entry, one nil precommit, restart; A = one replayed header whose commit proof has an
-    empty entry, restart. *)
-Theorem C10_restart_fails_witnesses :
-  run_x (init_state 1 ex_vs) [XOp (OpPrevote wB_msg); XOp (OpPrecommit wB_nil); XRestart] = Panic site_empty_sigs /\
-  run_x (init_state 1 ex_vs) [XOp (OpPrevote wB_msg); XCrash 2 (OpPrecommit wB_nil)] = Panic site_empty_sigs /\
-  run_x (init_state 1 ex_vs) [XOp wA_op; XRestart] = Panic site_empty_sigs /\
-  xstep (init_state 1 ex_vs) (XCrash 2 wA_op) = Panic site_empty_sigs.
-Proof.
-  split; [exact wB_restart_fails|]. split; [exact wB_crash_fails|]. split; [exact wA_restart_fails|exact (proj1 wA_crash_fails)].
-Qed.
-Print Assumptions C10_restart_fails_witnesses.
+Proof. exact keys_guard_needed_in_model. Qed.
+Print Assumptions C10_keys_guard_needed_in_model.
 
 (** START-UP IS TOTAL ON THE STORE INVARIANT: for ALL stores satisfying [SI] (whatever wrote
     them), NewKernel comes up, the state it returns satisfies INV, tinv and SI again, no committed
